@@ -201,6 +201,11 @@ class SvsWorld(World):
         except Exception as e:
             self.log('stop', ok=False, exc=exc_brief(e))
 
+    def op_restart(self, op):
+        # stop() and start() back to back, without giving the event loop a turn in between
+        self.op_stop(op)
+        self.op_start(op)
+
     def op_new_data(self, op):
         before = self.inst.self_seq
         self.new_data_this_step = True
@@ -247,7 +252,8 @@ class SvsWorld(World):
                 t = self.loop.create_task(self.app.main_loop())
                 self.harness_tasks.add(t)
             self.loop.call_soon(start)
-            table = {'start': self.op_start, 'stop': self.op_stop, 'new_data': self.op_new_data, 'rx': self.op_rx}
+            table = {'start': self.op_start, 'stop': self.op_stop, 'new_data': self.op_new_data, 'rx': self.op_rx,
+                     'restart': self.op_restart}
             ops = sorted(self.scenario['ops'], key=lambda o: o['at'])
             i = 0
             while i < len(ops):
@@ -392,6 +398,28 @@ def judge_node(self, ev, selfname=None, check_tasks=True):
             heard = None
         elif k in ('stop', 'start'):
             heard = None
+    # every sync Interest has one cause: no second one for the same timer expiry, none right after a suppression period was
+    # decided without one
+    txs = [x for x in ev if x['k'] == 'tx']
+    pubs = [x for x in ev if x['k'] == 'publish']
+    supends = [x for x in ev if x['k'] == 'sup-end' and x['by'] == 'timer']
+    for i, x in enumerate(txs):
+        if any(abs(p_['t'] - x['t']) <= 200 for p_ in pubs):
+            continue
+        dec = next((d for d in supends if d['step'] < x['step'] and 0 <= x['t'] - d['t'] <= 200), None)
+        if dec is not None and not [y for y in dec['tx'] if y is not None]:
+            self.violate('C18', 'suppression-chatty', 'svs', 'after-decision',
+                         f'a suppression period ended at t={dec["t"]}us without a sync Interest (local {_fmt(dec["local"])}), '
+                         f'yet one was emitted at t={x["t"]}us with nothing published in between')
+            break
+        prev = txs[i - 1] if i else None
+        if prev is not None and x['t'] - prev['t'] <= 200 and prev['sv'] == x['sv'] and prev['step'] != x['step'] \
+                and not any(abs(p_['t'] - prev['t']) <= 200 for p_ in pubs) \
+                and not any(r['k'] in ('rx', 'handled', 'start') and prev['t'] - 200 <= r['t'] <= x['t'] + 200 for r in ev):
+            self.violate('C18', 'duplicate-interest', 'svs', 'on_timer',
+                         f'two sync Interests with the same vector {_fmt(x["sv"])} were emitted at t={prev["t"]}us and '
+                         f't={x["t"]}us for one timer expiry (nothing published or heard in between)')
+            break
     for e in ev:
         if e['k'] == 'sup-stuck':
             self.violate('C18', 'suppression-stuck', 'svs', 'on_timer',
@@ -466,8 +494,10 @@ def generate(rng, seed, tier='quick'):
     nonce = 100
     t = 2000
     nodes = ['B', 'C', 'D']
-    own = rng.choice([0, 0, 3])
+    own = rng.choice([0, 0, 3]) if rng.random() < 0.9 else rng.choice([2 ** 32 - 2, 2 ** 32 - 1, 2 ** 32, 2 ** 63 - 2])
     model_local = {SELF: own}
+    # sequence numbers across the 32-bit boundary and near the top of the 64-bit range for some nodes
+    big = {n: rng.choice([2 ** 32 - 2, 2 ** 32, 2 ** 48, 2 ** 63 - 5]) for n in nodes if rng.random() < 0.08}
     n_events = rng.randint(2, 10)
     sup_us = int(sup * 1e6)
     last_trigger = None
@@ -487,7 +517,7 @@ def generate(rng, seed, tier='quick'):
             model_local[SELF] += 1
             continue
         if x < 0.24:
-            ops.append({'at': t, 'op': rng.choice(['stop', 'start'])})
+            ops.append({'at': t, 'op': rng.choice(['stop', 'start', 'restart', 'restart'])})
             continue
         nonce += 1
         kind = 'ok'
@@ -506,6 +536,8 @@ def generate(rng, seed, tier='quick'):
                 s = cur
             else:
                 s = max(0, cur + rng.randint(-2, 2)) if n != SELF else max(0, cur - rng.randint(0, 2))
+            if n in big and s < big[n] and mode in ('newer', 'mixed'):
+                s += big[n]
             sv.append([n, s])
         op = {'at': t, 'op': 'rx', 'nonce': nonce, 'sv': sv}
         if mode == 'overclaim':
